@@ -167,7 +167,7 @@ Proof.
     + split; [intros [[= -> -> ->]|[]]; split; [reflexivity|exact E]|intros [[= -> -> ->] _]; left; reflexivity].
     + split; [intros []|intros [Heq Hk]; injection Heq as -> -> ->; congruence].
   - split; [intros [H|[]]; discriminate H|intros [H _]; discriminate H].
-  - destruct (filter (fun x => keep_ct ct m (fst x)) srcs); (split; [intros Hin; absurd_in Hin|intros [Hx _]; discriminate Hx]).
+  - cbv zeta. destruct (table_delivered ct m slot (filter (fun x => keep_ct ct m (fst x)) srcs)); (split; [intros Hin; absurd_in Hin|intros [Hx _]; discriminate Hx]).
   - split; [intros [H|[]]; discriminate H|intros [H _]; discriminate H].
   - split; [intros [H|[]]; discriminate H|intros [H _]; discriminate H].
   - split; [intros [H|[]]; discriminate H|intros [H _]; discriminate H].
@@ -210,7 +210,7 @@ Proof.
   - destruct e0 as [name raw body| dp sy | slot srcs | attr0 | attr0 ms0 ml0 fs0 xr0 ces0 | attr0 k nn dd es | |]; cbn [proj_ev proj_ev0].
     + destruct (keep_ct ct m name); [intros [H|[]]; discriminate H|intros []].
     + intros [H|[]]; discriminate H.
-    + destruct (filter (fun x => keep_ct ct m (fst x)) srcs); [intros []|intros [H|[]]; discriminate H].
+    + cbv zeta. destruct (table_delivered ct m slot (filter (fun x => keep_ct ct m (fst x)) srcs)); [intros [H|[]]; discriminate H|intros []].
     + destruct (keep_ct ct m attr0); [intros [H|[]]; discriminate H|intros []].
     + destruct (keep_ct ct m attr0) eqn:E; [|intros []]. destruct kc as [cm|]; [|intros [H|[]]; discriminate H].
       intros [[= -> -> -> <- -> <-]|[]]. exists fs0, ces0, cm. repeat split; try reflexivity. exact E.
@@ -229,7 +229,7 @@ Proof.
   - destruct e0 as [name raw body| dp sy | slot srcs | attr0 | attr0 ms0 ml0 fs0 xr0 ces0 | attr0 k0 n0 d0 es | |]; cbn [proj_ev proj_ev0].
     + destruct (keep_ct ct m name); [intros [H|[]]; discriminate H|intros []].
     + intros [H|[]]; discriminate H.
-    + destruct (filter (fun x => keep_ct ct m (fst x)) srcs); [intros []|intros [H|[]]; discriminate H].
+    + cbv zeta. destruct (table_delivered ct m slot (filter (fun x => keep_ct ct m (fst x)) srcs)); [intros [H|[]]; discriminate H|intros []].
     + destruct (keep_ct ct m attr0); [intros [H|[]]; discriminate H|intros []].
     + destruct (keep_ct ct m attr0); [|intros []]. destruct kc; intros [H|[]]; discriminate H.
     + destruct (keep_ct ct m attr0) eqn:E; [|intros []].
@@ -252,7 +252,7 @@ Proof.
       cbn [proj_member proj_ev proj_ev0].
     + destruct (keep_ct (rt_class T) (v_class v) name); [intros [H|[]]; discriminate H|intros []].
     + intros [H|[]]; discriminate H.
-    + destruct (filter (fun x => keep_ct (rt_class T) (v_class v) (fst x)) srcs); [intros []|intros [H|[]]; discriminate H].
+    + cbv zeta. destruct (table_delivered (rt_class T) (v_class v) slot (filter (fun x => keep_ct (rt_class T) (v_class v) (fst x)) srcs)); [intros [H|[]]; discriminate H|intros []].
     + destruct (keep_ct (rt_class T) (v_class v) attr0); [intros [H|[]]; discriminate H|intros []].
     + destruct (keep_ct (rt_class T) (v_class v) attr0); [intros [H|[]]; discriminate H|intros []].
     + destruct (keep_ct (rt_class T) (v_class v) attr0); [intros [H|[]]; discriminate H|intros []].
@@ -274,7 +274,7 @@ Proof.
       cbn [proj_member proj_ev proj_ev0].
     + destruct (keep_ct (rt_class T) (v_class v) name); [intros [H|[]]; discriminate H|intros []].
     + intros [H|[]]; discriminate H.
-    + destruct (filter (fun x => keep_ct (rt_class T) (v_class v) (fst x)) srcs); [intros []|intros [H|[]]; discriminate H].
+    + cbv zeta. destruct (table_delivered (rt_class T) (v_class v) slot (filter (fun x => keep_ct (rt_class T) (v_class v) (fst x)) srcs)); [intros [H|[]]; discriminate H|intros []].
     + destruct (keep_ct (rt_class T) (v_class v) attr0); [intros [H|[]]; discriminate H|intros []].
     + destruct (keep_ct (rt_class T) (v_class v) attr0); [intros [H|[]]; discriminate H|intros []].
     + destruct (keep_ct (rt_class T) (v_class v) attr0); [intros [H|[]]; discriminate H|intros []].
@@ -370,8 +370,13 @@ Qed.
 
 (* ---------- the parsed values ---------- *)
 (* in trace t the visitor at place pl is handed, for an attribute named [name], the parsed value [val] *)
+(* the location number of a place (the grammar of a type annotations attribute depends on it): 0 class, 1 field, 2 method,
+   3 Code, 4 record component *)
+Definition loc_of (pl : place) : N :=
+  match pl with PClass => 0 | PField _ => 1 | PMethod _ => 2 | PCode _ _ => 3 | PRc _ _ => 4 end.
+
 Definition value_at (X : xtable) (V : vnames) (rs : resolver) (t : option (list ev)) (pl : place) (name : str) (val : list N) : Prop :=
-  exists raw body, attr_at t pl (EAttr name raw body) /\ attr_value X V rs name raw body = Some val.
+  exists raw body, attr_at t pl (EAttr name raw body) /\ attr_value X V rs (loc_of pl) name raw body = Some val.
 
 Theorem project_value_at X V rs T v t pl name val :
   value_at X V rs (project T v t) pl name val <-> value_at X V rs t pl name val /\ wanted T v pl name.
@@ -454,4 +459,35 @@ Proof.
   intros rs. exists false, [0;4]. split.
   - eexists. split; [vm_compute; reflexivity|]. cbn [In]. left. reflexivity.
   - reflexivity.
+Qed.
+
+(* the same for type annotations, whose value depends on the place: `class A` with RuntimeVisibleTypeAnnotations { @B on the
+   super class (target_type 0x10, index 65535) } and a method m()V whose Code carries RuntimeVisibleTypeAnnotations { @B on the
+   `new` at offset 0 (0x44) }.  The full visitor is handed, at the class and at the Code, the target type and target info as
+   numbers, the empty path and the annotation with its type resolved.
+   constant pool: 1 "A", 2 Class #1, 3 "RuntimeVisibleTypeAnnotations", 4 "LB;", 5 "Code", 6 "m", 7 "()V" *)
+Definition nRVTA : str := nth 0 type_annotation_attrs_gen [].
+Definition w_hdr4 : bytes :=
+  [202;254;186;190; 0;0; 0;52] ++ e16 8
+  ++ utf8 [65] ++ [7;0;1] ++ utf8 nRVTA ++ utf8 [76;66;59] ++ utf8 nCode ++ utf8 [109] ++ utf8 [40;41;86]
+  ++ [0;33; 0;2; 0;0; 0;0].
+Definition w_ta_code_attrs : list pattr := [mkP 3 10 [0;1; 68; 0;0; 0; 0;4; 0;0]].
+Definition w_type_annotations : cls :=
+  mkC w_hdr4 [] [mkM 1 6 7 [AtCode 5 (elen (code_body 2 1 [187;0;2;87;177] 0 [] w_ta_code_attrs)) 2 1 [187;0;2;87;177] 0 [] w_ta_code_attrs]]
+      [AtPlain (mkP 3 10 [0;1; 16; 255;255; 0; 0;4; 0;0])].
+Definition type_values_example : Prop :=
+  wf_b tables w_type_annotations = true /\ once_b tables accept_tables_gen w_type_annotations = true
+  /\ replay_inexact tables accept_tables_gen (full_of w_type_annotations) = false
+  /\ wanted tables (v_full tables) PClass nRVTA /\ wanted tables (v_full tables) (PCode 0 nCode) nRVTA
+  /\ forall rs, value_at xtable_gen vnames_gen rs (full_of w_type_annotations) PClass nRVTA [1; 16; 65535; 0; rs_str rs 4; 0]
+              /\ value_at xtable_gen vnames_gen rs (full_of w_type_annotations) (PCode 0 nCode) nRVTA [1; 68; 0; 0; rs_str rs 4; 0].
+Theorem type_values_example_holds : type_values_example.
+Proof.
+  unfold type_values_example. repeat split; try (vm_compute; reflexivity).
+  - exists (t_interests method_table), (t_interests code_table). repeat split; vm_compute; reflexivity.
+  - exists false, [0;1; 16; 255;255; 0; 0;4; 0;0]. split; [|vm_compute; reflexivity].
+    eexists. split; [vm_compute; reflexivity|]. cbn [In]. left. reflexivity.
+  - exists false, [0;1; 68; 0;0; 0; 0;4; 0;0]. split; [|vm_compute; reflexivity].
+    eexists. split; [vm_compute; reflexivity|]. cbn [loc_of].
+    do 9 eexists. split; [right; right; left; reflexivity|]. split; [left; reflexivity|]. left. reflexivity.
 Qed.
